@@ -9,7 +9,56 @@ def _dyn(case):
   return case.get('dom') == 'dyn'
 
 
+# a functools.partial registered as a configurable: what the partial consumed is no longer one of its parameters (binding
+# it is refused on every path); what is left is bindable and injected - a finite table on the real code
+PARTIAL_CASES = [{'dom': 'gin', '_kind': 'partial', 'path': path, 'by': by, 'ops': []}
+                 for path in ('str', 'tuple', 'scoped', 'text', 'block') for by in ('positional', 'keyword')]
+
+
+def run_partial_case(case):
+  import functools
+  import core
+  gin = core.fresh_gin()
+
+  def scale(factor, x=1, offset=0):
+    return factor * x + offset
+  part = functools.partial(scale, 2) if case['by'] == 'positional' else functools.partial(scale, factor=2)
+  double = gin.external_configurable(part, name='double', module='pt')
+  facts = {}
+
+  def bind(param, value):
+    path = case['path']
+    if path == 'str':
+      gin.bind_parameter(f'pt.double.{param}', value)
+    elif path == 'tuple':
+      gin.bind_parameter(('', 'pt.double', param), value)
+    elif path == 'scoped':
+      gin.bind_parameter(f'sc/double.{param}', value)
+    elif path == 'text':
+      gin.parse_config(f'pt.double.{param} = {value!r}\n')
+    else:
+      gin.parse_config(f'double:\n  {param} = {value!r}\n')
+  try:
+    before = {k: dict(v) for k, v in gin.config._CONFIG.items()}  # pylint: disable=protected-access
+    try:
+      bind('factor', 10)
+      facts['consumed'] = 'accepted'
+    except Exception as e:  # pylint: disable=broad-except
+      facts['consumed'] = type(e).__name__
+    # (a keyword the partial supplies can be overridden by a later keyword in Python; gin still must not offer it:
+    # the partial's own signature lists it keyword-only with a default, so it is a parameter of the partial)
+    facts['store_unchanged'] = {k: dict(v) for k, v in gin.config._CONFIG.items()} == before  # pylint: disable=protected-access
+    bind('offset', 5)
+    with gin.config_scope('sc'):
+      facts['result'] = double(x=3)
+  except Exception as e:  # pylint: disable=broad-except
+    facts['error'] = f'{type(e).__name__}: {e}'[:300]
+  return {'out': [], 'facts': facts}
+
+
 def run_impl(case):
+  if case.get('_kind') == 'partial':
+    return run_partial_case(case)
   if _dyn(case):
     from props import c19
     return c19.run_impl(case)
@@ -24,6 +73,8 @@ def to_driver(case, impl):
 
 
 def compare(case, impl, model):
+  if case.get('_kind') == 'partial':
+    return None
   if _dyn(case):
     from props import c19
     return c19.compare(case, impl, model)
@@ -31,6 +82,9 @@ def compare(case, impl, model):
 
 
 def tally(stats, case, impl):
+  if case.get('_kind') == 'partial':
+    stats['partial_cases'] = stats.get('partial_cases', 0) + 1
+    return
   if _dyn(case):
     stats['dynamic_registration_cases'] = stats.get('dynamic_registration_cases', 0) + 1
     k = 'dyn:outcome=' + str(impl.get('err'))
@@ -125,6 +179,7 @@ def gen_case(rng):
 
 
 def gen_cases(rng, tier, boost=1):
+  yield from PARTIAL_CASES
   n = (800 if tier == 'quick' else 20000) * boost
   for _ in range(n):
     yield gen_case(rng)
@@ -142,6 +197,17 @@ def gen_cases(rng, tier, boost=1):
 
 
 def oracle(case, impl):
+  if case.get('_kind') == 'partial':
+    f = impl['facts']
+    want_consumed = 'ValueError' if case['by'] == 'positional' else 'accepted'
+    if 'error' in f:
+      return f'partial registered as a configurable ({case}): {f["error"]}'
+    if case['by'] == 'positional' and (f.get('consumed') != want_consumed or not f.get('store_unchanged')):
+      return (f'a parameter consumed positionally by a functools.partial was offered for binding through {case["path"]}: '
+              f'{f.get("consumed")}, store unchanged: {f.get("store_unchanged")}')
+    if case['by'] == 'positional' and f.get('result') != 2 * 3 + 5:
+      return f'partial registered as a configurable ({case["path"]}): double(x=3) with offset bound to 5 returned {f.get("result")}'
+    return None
   if _dyn(case):
     from props import c19
     return c19.oracle(case, impl)
@@ -149,6 +215,8 @@ def oracle(case, impl):
 
 
 def nontrivial(case, impl):
+  if case.get('_kind') == 'partial':
+    return True
   if _dyn(case):
     return impl.get('err') == 'ValueError' or bool(impl.get('bindings'))
   seen_ok = False
@@ -162,6 +230,8 @@ def nontrivial(case, impl):
 
 
 def shrink(case):
+  if case.get('_kind') == 'partial':
+    return
   if _dyn(case):
     from props import c19
     yield from c19.shrink(case)
